@@ -252,6 +252,27 @@ Definition guard_nowrap (w : nat) (st : style) (edd : bool) (i : ir) : bool :=
      | _ => true
      end.
 
+(* the strings of an entry have no blank other than those TextWrapper knows (needed where str.lstrip is applied
+   to wrapped text, i.e. in the ReST branch) *)
+Definition plain_entry (st : style) (edd : bool) (np : str * param) : bool :=
+  match st with
+  | Rest => match filled_lines Rest (fst np) (snd np) edd with
+            | Ok ls => forallb no_exotic_space ls
+            | Err _ => true
+            end
+  | _ => true
+  end.
+
+Definition ir_plain (st : style) (edd : bool) (i : ir) : bool :=
+  match params_of (ir_params i) with Some ps => forallb (plain_entry st edd) ps | None => true end
+  && match ir_returns i with
+     | Has g => match param_of_gparam g with
+                | Some p => plain_entry st edd (L "return_type", p)
+                | None => true
+                end
+     | _ => true
+     end.
+
 (* ---- wire ---- *)
 Definition dec_emitter (e : sexp) : option emitter :=
   if is_sym "docstring-rest" e then Some (E_docstring Rest)
